@@ -420,10 +420,14 @@ pub trait PixelDataWriter {
     ) -> EncodeResult<Vec<AttributeOp>> {
         let frames = src.number_of_frames().unwrap_or(1);
         let mut out = Vec::new();
+        // byte offset of the frame's item from the first item after the table
+        let mut offset = 0_u32;
         for frame in 0..frames {
             let mut frame_data = Vec::new();
             out = self.encode_frame(src, frame, options.clone(), &mut frame_data)?;
-            offset_table.push(frame_data.len() as u32 + 8 * (frame + 1));
+            offset_table.push(offset);
+            // item header plus the fragment (written with even length)
+            offset += 8 + frame_data.len().next_multiple_of(2) as u32;
             dst.push(frame_data);
         }
         Ok(out)
